@@ -58,7 +58,7 @@ theorem C02_no_cleartext (cfg : Cfg) (st0 : Mask) (hc : Compliant cfg.toFCfg st0
 is an error or a session whose state has `Secure` and whose connection has a TLS layer. -/
 theorem C02_ready_only_secured (cfg : Cfg) (st0 : Mask) (hc : Compliant cfg.toFCfg st0)
     (hs : has st0 Secure = false) (hr : has st0 Ready = false) (i : Input) (fuel : Nat)
-    (st : Mask) (t : Bool) (hd : (run cfg st0 i fuel).2 = .done st t) :
+    (st : Mask) (t hsk : Bool) (hd : (run cfg st0 i fuel).2 = .done st t hsk) :
     has st Secure = true ∧ t = true := by
   have := (run_safe cfg st0 hc hs hr i fuel).2
   rw [hd] at this
@@ -157,7 +157,7 @@ example :
     run cfg1 0 ⟨[[.hdr true, .list []], [.proceed, .hdr true]], [.unit (.hdr true), .unit (.list [])],
       [(0, ⟨0, false, false⟩)]⟩ 10 =
     ([.wHdr false, .deliver true false, .deliver true false, .wStartTLS false, .deliver true false,
-      .switch, .wHdr true, .deliver false true, .deliver false true], .done 5 true) := by
+      .switch, .wHdr true, .deliver false true, .deliver false true], .done 5 true true) := by
   decide +kernel
 
 /-- the hypothesis matters: a feature that does not require `Secure` does write in clear text -/
